@@ -327,6 +327,9 @@ type c15View struct {
 	ast     string
 	root    string // TokenType of the AST root
 	panic   *mon.Panic
+	// Len() asked on the objects that had answered Check() / GetAST() before (accepted texts)
+	lenAfterCheck, lenAfterAST uint
+	lenAfterErr                string
 }
 
 func c15Verdict(text string, types bool) (v c15View) {
@@ -343,6 +346,10 @@ func c15Verdict(text string, types bool) (v c15View) {
 			}
 			return
 		}
+		var lerr error
+		if v.lenAfterCheck, lerr = s.Len(); lerr != nil {
+			v.lenAfterErr = "after Check(): " + lerr.Error()
+		}
 		s2, err := c15New(text, types)
 		if err != nil {
 			v.code, v.errText = -1, err.Error()
@@ -356,6 +363,9 @@ func c15Verdict(text string, types bool) (v c15View) {
 		}
 		b, _ := marshalAST(n)
 		v.ast, v.root = string(b), string(n.TokenType)
+		if v.lenAfterAST, lerr = s2.Len(); lerr != nil {
+			v.lenAfterErr = "after GetAST(): " + lerr.Error()
+		}
 	})
 	return
 }
@@ -409,6 +419,9 @@ func c15Core(S string, types, pinned bool) (in c15Info, fails []c15Fail) {
 		}
 		in.skip = "rejected"
 		return
+	}
+	if v.code == 0 && (v.lenAfterErr != "" || v.lenAfterCheck != L || v.lenAfterAST != L) {
+		fails = append(fails, c15Fail{"call-order", fmt.Sprintf("Len() as the first call on the object = %d; on an object that answered Check() before = %d, GetAST() before = %d %s", L, v.lenAfterCheck, v.lenAfterAST, v.lenAfterErr)})
 	}
 	in.usable, in.L = true, L
 	in.family = lastLineHasUserComment(S)
@@ -772,7 +785,9 @@ var c15Rules = map[byte][]string{
 	'i': {`min: 0`, `max: 1000000`, `type: "integer"`, `min: 0, max: 999999`, `nullable: true`, `or: [{type: "integer"}, {type: "string"}]`, `const: true`, `min: 0, exclusiveMinimum: false`, `type: "any"`, `or: ["integer", "string"]`},
 	'n': {`max: 0`, `type: "integer"`, `nullable: true`, `max: 0, min: -1000`},
 	'f': {`precision: 5`, `type: "float"`, `min: 0`, `nullable: true`, `type: "decimal", precision: 4`, `const: false`},
-	's': {`minLength: 0`, `maxLength: 1000`, `type: "string"`, `nullable: true`, `minLength: 0, maxLength: 999`, `or: [{type: "string"}, {type: "integer"}]`, `const: true`, `type: "any"`},
+	's': {`minLength: 0`, `maxLength: 1000`, `type: "string"`, `nullable: true`, `minLength: 0, maxLength: 999`, `or: [{type: "string"}, {type: "integer"}]`, `const: true`, `type: "any"`,
+		// comment and annotation markers inside rule strings
+		`regex: ".*/*"`, `regex: "(#|//|.)*"`, `or: [{type: "string", regex: ".*/*#?"}, "integer"]`, `regex: "^.*/?$", minLength: 0`},
 	'b': {`type: "boolean"`, `nullable: true`, `const: true`},
 	'z': {`type: "null"`, `type: "any"`, `nullable: true`},
 	'o': {`additionalProperties: true`, `nullable: true`, `type: "object"`, `additionalProperties: "string"`, `additionalProperties: false, nullable: false`},
@@ -1273,6 +1288,7 @@ var c15Seeds = []string{
 	`"#"`, `"//"`, `"/* */"`, `"*/"`, `"\""`, `"\\"`, `"a\\"`, `"# not a comment"`, `{"#": "#"}`, `{"//": "/*", "*/": "#"}`, `["#", "//"]`,
 	`1`, `-1`, `0`, `1.5`, `true`, `false`, `null`, `""`, `{}`, `[]`, `[[]]`, `{"a":{}}`, `@a`, `@a | @b`, `@a|@b`, `@a // {nullable: true}`, `@a | @b // note`,
 	`1 // note`, `1 // {min: 0}`, `1 // {min: 0} - note`, `1 //{min: 0}-note`, `1 /* note */`, `1 /* {min: 0} */`, "1 /* {min: 0}\n - note */", "1 /*\n{min: 0}\n*/", "1 /* {min: 0} - a\nb\nc */",
+	`"ab" /* {regex: "^a*/?b$"} */`, `"*/" /* {enum: ["*/", "x"]} */`, "42 /* {enum: [\n1, // one */ or so\n42 // two\n]} */", "{\n  \"k\": \"a\" /* {regex: \"a*/*\"} */\n}", `"x" /* {or: [{type: "string", regex: "x*/"}, "integer"]} - n */`, `"//" /* {enum: ["//", "#", "/*"]} */`,
 	"{}\n/* note */", "{} /* note */", "[] /* {minItems: 0} */", "1\n", "1 ", "1\t", "1\n\n", " 1", "\n1", "\n\n  1  \n\n", "1 // note ", "1 // note\n", "1 /* n */ ", "1 /* n */\n\n",
 	"{\n  \"a\": 1, // {min: 0}\n  \"b\": \"s\" // note\n}", "{ // {nullable: true}\n  \"a\": 1\n}", "[ // {minItems: 1}\n  1, // {min: 0}\n  \"s\" // note\n]",
 	"{\n  \"a\": 1, # c\n  \"b\": 2\n}", "{\n  # c\n  \"a\": 1\n}", "{\n###\n block\n###\n  \"a\": 1\n}", "# leading\n1", "###\nleading\n###\n1",
